@@ -506,3 +506,69 @@ pub fn inline_wake_checks() -> Vec<String> {
     }
     fails
 }
+
+/// The writer dropped while its thread is unwinding from a panic (a producer closure that panics while it
+/// owns the BodyWriter): the drop must still publish the staged tail, mark the end and wake the parked
+/// consumer (C10: "woken ... after the writer is dropped"; "never sleeps forever while ... the termination
+/// is pending"). Harness-level checks.
+pub fn unwind_drop_checks() -> Vec<String> {
+    struct Counting(std::sync::atomic::AtomicUsize);
+    impl std::task::Wake for Counting {
+        fn wake(self: Arc<Self>) {
+            self.0.fetch_add(1, std::sync::atomic::Ordering::SeqCst);
+        }
+    }
+    let mut fails = vec![];
+    for gzip in [false, true] {
+        for cap in [4usize, 4096] {
+            for staged in [false, true] {
+                let mut rb = http::Request::builder().method("GET");
+                if gzip {
+                    rb = rb.header("accept-encoding", "gzip");
+                }
+                let req = rb.body(()).unwrap();
+                let (resp, writer) = http_serve::streaming_body(&req).with_chunk_size(cap).build::<Bytes, BoxError>();
+                let mut body: SBody = Box::pin(resp.into_body());
+                let counter = Arc::new(Counting(std::sync::atomic::AtomicUsize::new(0)));
+                let waker = Waker::from(counter.clone());
+                let mut cx = Context::from_waker(&waker);
+                let tag = format!("gzip={} cap={} staged={}", gzip, cap, staged);
+                if !matches!(body.as_mut().poll_frame(&mut cx), Poll::Pending) {
+                    fails.push(format!("fresh-body-not-pending({})", tag));
+                    continue;
+                }
+                // the producer panics while it owns the writer
+                let _ = catch_unwind(AssertUnwindSafe(move || {
+                    let mut w = writer.unwrap();
+                    if staged {
+                        let _ = w.write(b"ab");
+                    }
+                    std::panic::resume_unwind(Box::new("producer failed"));
+                }));
+                if counter.0.load(std::sync::atomic::Ordering::SeqCst) == 0 {
+                    fails.push(format!("consumer-not-woken-after-the-writer-was-dropped-while-unwinding({})", tag));
+                }
+                let mut ended = false;
+                let mut got = 0usize;
+                for _ in 0..12 {
+                    match body.as_mut().poll_frame(&mut cx) {
+                        Poll::Pending => break,
+                        Poll::Ready(None) => {
+                            ended = true;
+                            break;
+                        }
+                        Poll::Ready(Some(Err(_))) => break,
+                        Poll::Ready(Some(Ok(f))) => got += f.into_data().map(|d| d.len()).unwrap_or(0),
+                    }
+                }
+                if !ended {
+                    fails.push(format!("no-end-after-the-writer-was-dropped-while-unwinding({})", tag));
+                }
+                if !gzip && staged && got != 2 {
+                    fails.push(format!("staged-bytes-lost-when-the-writer-was-dropped-while-unwinding({})", tag));
+                }
+            }
+        }
+    }
+    fails
+}
